@@ -5,7 +5,8 @@
    length with any environment per owner, and every arrival order [arr] of the answers
    (any [Permutation] of what the owners send). *)
 From Coq Require Import Permutation.
-From Verif Require Import C03.Model C03.Spec C03.Proofs.
+From Verif Require Import C03.Model C03.Spec C03.Proofs C03.Level C03.LevelProofs.
+From VerifGen Require Import Consts.
 Open Scope N_scope.
 
 (* success is reported only if the requested level was met *)
@@ -94,3 +95,35 @@ Example classification_nonvacuous :
   write_to_shard ex_cfg (firstn 1 ex_owners) (answers ex_cfg (firstn 1 ex_owners)) = Failed (Some (EW 1)) /\
   map (hh_expected ex_cfg) ex_owners = [1; 0; 1; 0; 0].
 Proof. vm_compute. repeat split. Qed.
+
+(* ---- the REQUESTED level: the `consistency` parameter of a write request ---- *)
+
+(* For every parameter value (any bytes): it is accepted exactly when it is an ASCII spelling,
+   in any letter case, of one of the four names, and then it means that level; letter case
+   never matters; an absent or empty parameter asks for ONE. *)
+Theorem requested_level_exact :
+  forall (s : list N) (l : level),
+  parse_level s = Some l <-> (is_ascii s = true /\ lower s = level_name l).
+Proof. exact parse_level_iff. Qed.
+Print Assumptions requested_level_exact.
+
+Theorem requested_level_case_insensitive : forall s, parse_level (lower s) = parse_level s.
+Proof. exact parse_level_case_insensitive. Qed.
+Print Assumptions requested_level_case_insensitive.
+
+Theorem requested_level_default_and_names :
+  request_level [] = Some LOne /\ forall l, request_level (level_name l) = Some l.
+Proof. split; [exact request_level_default|exact request_level_named]. Qed.
+Print Assumptions requested_level_default_and_names.
+
+(* both HTTP write handlers start from ConsistencyLevelOne and hand a non-empty parameter to
+   ParseConsistencyLevel, refusing the request when it errs (shape re-derived from
+   services/httpd/handler.go by tools/genconsts/c03.go on every run) *)
+Theorem handlers_request_level_shape : c03_handler_level_shape = true.
+Proof. reflexivity. Qed.
+Print Assumptions handlers_request_level_shape.
+
+Example requested_level_examples :
+  parse_level [81; 117; 79; 114; 85; 109] = Some LQuorum /\ parse_level [97; 108] = None /\
+  parse_level [226; 132; 170] = None /\ parse_level [] = None /\ request_level [] = Some LOne.
+Proof. vm_compute. repeat split; reflexivity. Qed.
